@@ -50,6 +50,13 @@ class CtorFlow(Engine):
             return [(Ref('list', st.mon['ref:ctorsrc']), st)]
         return super().call_function(fi, args, kwargs, st, node, self_val=self_val)
 
+    def getattr_(self, o, name, st, node):
+        if isinstance(o, Ref) and o.kind == 'obj':
+            e = st.get(o.sym)
+            if e.get('%ctor') is not None and e.get(name) is None and self.prog.classes[e.cls].find(name) is None:
+                return [(Unknown(f'attribute {name} of a summarised reader'), st)]
+        return super().getattr_(o, name, st, node)
+
     def instantiate(self, c, args, kwargs, st, node):
         if isinstance(c, ClsV) and c.qual == self.prog.cls('MosCollection').qualname:
             readers = args[0] if args else kwargs.get('mos_readers')
@@ -73,6 +80,10 @@ class CtorFlow(Engine):
 
     def on_reorder(self, st, node, list=None, how='', kwargs=None):
         self.reorders.append((how, tuple(sorted(kwargs or {}))))
+
+    def on_dict_store(self, st, node, dict=None, key=None, value=None):
+        if isinstance(value, Ref) and value.kind == 'obj' and st.get(value.sym).get('%ctor') is not None:
+            self.dropped.append(f'a mapping keyed by {self.describe(key, st)} (readers with an equal key collapse into one)')
 
     def on_comp_skip(self, st, node, gen=None):
         import ast
@@ -153,7 +164,7 @@ def ctor_rules(res, prog: Program):
                 bad = [k for k, v in want.items() if v not in got.get(k, '')]
                 if bad:
                     ok_args, d_args = False, f's3.get_mos_files does not receive the caller\'s {"/".join(bad)}: {kw}'
-        if not seen_reader:
+        if not seen_reader and not fl.dropped:
             res.error(f'CTOR-ARGS: no reader reaches cls(...) in MosCollection.{name} (idiom not recognised)')
         for ctor, args in fl.made:
             if ctor != rctor:
